@@ -508,6 +508,8 @@ pub(crate) async fn basic_expand_assignment_word(
 ) -> Result<String, error::Error> {
     let mut expander = WordExpander::new(shell, params);
     expander.parser_options.tilde_expansion_after_colon = true;
+    // The value of an assignment is not brace-expanded (`v={a,b}` stores the braces).
+    expander.disable_brace_expansion = true;
     expander.basic_expand_to_str(word_str.as_ref()).await
 }
 
